@@ -30,6 +30,7 @@ struct verif_in_t {
 	uint8_t		act[NE], who[NE];
 	int		rd_errno; uint8_t eintr;
 	int		init_ret, add_ret;
+	_Bool		rm_fails;
 } verif_in;
 
 static struct iv_inotify	*v_in;
@@ -93,7 +94,7 @@ void iv_fd_unregister(struct iv_fd *fd) { g_fd_unreg++; }
 void IV_FD_INIT(struct iv_fd *fd) { fd->fd = -1; fd->handler_in = NULL; fd->handler_out = NULL; fd->handler_err = NULL; }
 int STUB(inotify_init)(void) { return verif_in.init_ret < 0 ? -1 : k_alloc(KFD_OTHER, 0, 0); }
 int STUB(inotify_add_watch)(int fd, const char *path, uint32_t mask) { return verif_in.add_ret; }
-int STUB(inotify_rm_watch)(int fd, int wd) { return 0; }
+int STUB(inotify_rm_watch)(int fd, int wd) { if (verif_in.rm_fails) { verif_errno = EINVAL; return -1; } return 0; }	/* EINVAL: the kernel already dropped the wd */
 
 ssize_t STUB(read)(int fd, void *buf, size_t n)
 {
